@@ -334,6 +334,15 @@ func (e *Engine) newErrorOnce(name string) IfaceV {
 // recordAccess: lock-discipline audit. While objects are being watched (vn.Watch), every load,
 // store or map access to them must happen with at least one mutex held.
 func (e *Engine) recordAccess(st *State, p Ptr, write bool, pos token.Pos) {
+	if mark, ok := st.ghost["watchshared"]; ok && write && len(st.lockset) == 0 {
+		if m, _ := mark.(*Term).ConstInt(); int64(p.obj) <= m {
+			// writes made by the harness's own mocks and monitors are not the code under test's
+			where := e.pos(pos)
+			if !strings.Contains(where, "zz_verif_") && !strings.Contains(where, "internal/vn/") {
+				e.reportFinding(st, "lock-discipline/shared-write-without-lock", "assert", where, nil)
+			}
+		}
+	}
 	if _, ok := st.ghost[fmt.Sprintf("watch:%d", p.obj)]; !ok {
 		if _, okw := st.ghost[fmt.Sprintf("watchw:%d", p.obj)]; !okw || !write {
 			return
